@@ -10,6 +10,8 @@ import sys
 sys.path.insert(0, os.environ.get('CARDUTIL_REPO', '/repo'))
 
 from cardutil import mciipm, CardutilError  # noqa: E402
+import logging  # noqa: E402
+logging.disable(logging.CRITICAL)   # the library warns on every short read; the checks read millions of them
 
 P, T, PAD = 1012, 2, 0x40
 
@@ -136,3 +138,91 @@ def content(r, n, style):
     if style == 'mix':
         return bytes(r.choice((0x40, 0x00, 0x40, 0x31, 0xff)) for _ in range(n))
     return bytes(r.randrange(256) for _ in range(n))
+
+
+# ------------------------------------------------------------------ VBS writer / reader drivers
+
+def max_vbs_len():
+    from cardutil import config
+    return config.config.get('MAX_VBS_RECORD_LENGTH', 6000)
+
+
+def ev(op, n=0, out='', b=b''):
+    return {'op': op, 'n': n, 'out': out, 'bytes': list(b)}
+
+
+def vbs_write_events(recs, blocked, fins=('close',), api='class', fileobj=None):
+    """Perform the writer history on the real code. fins: sequence of 'close' / 'exit'
+    ('exit' = leaving a `with` block; 'close','exit' = close() inside the block then leaving it).
+    Returns (events, file bytes)."""
+    events = [ev('write', len(r), '', r) for r in recs]
+    if api == 'func':
+        data = mciipm.vbs_list_to_bytes(recs, blocked=blocked)
+        events.append(ev('fin', 1))
+        events.append(ev('file', 0, '', data))
+        return events, data
+    f = fileobj if fileobj is not None else io.BytesIO()
+    fins = list(fins)
+    if 'exit' in fins:
+        k = fins.index('exit')
+        with mciipm.VbsWriter(f, blocked=blocked) as w:
+            for r in recs:
+                w.write(r)
+            for _ in fins[:k]:
+                w.close()
+        after = fins[k + 1:]
+    else:
+        w = mciipm.VbsWriter(f, blocked=blocked)
+        for r in recs:
+            w.write(r)
+        after = fins
+    for x in after:
+        if x == 'exit':
+            w.__exit__(None, None, None)
+        else:
+            w.close()
+    for x in fins:
+        events.append(ev('fin', 1 if x == 'close' else 2))
+    f.seek(0)
+    data = f.read()
+    events.append(ev('file', 0, '', data))
+    return events, data
+
+
+def read_events(data, blocked, make_reader=None, limit=100000, project=None):
+    """Iterate a real reader over `data` until it stops or raises; one 'next' event per call."""
+    f = io.BytesIO(data)
+    events = []
+    try:
+        with Watchdog(5.0):
+            rd = make_reader(f) if make_reader else mciipm.VbsReader(f, blocked=blocked)
+    except BaseException as ex:  # noqa
+        o = exc_outcome(ex)
+        events.append(_err_event(o))
+        return events, [o]
+    raw = []
+    for _ in range(limit):
+        try:
+            with Watchdog(5.0):
+                rec = next(rd)
+        except StopIteration:
+            events.append(ev('next', 0, 'stop'))
+            break
+        except BaseException as ex:  # noqa
+            o = exc_outcome(ex)
+            raw.append(o)
+            events.append(_err_event(o))
+            break
+        raw.append(rec)
+        events.append(ev('next', 0, 'rec', rec) if project is None else project(rec))
+    return events, raw
+
+
+def _err_event(o):
+    if o['kind'] == 'liberr':
+        rn = o.get('record_number')
+        e = ev('next', rn if isinstance(rn, int) else -1, 'liberr', bytes(o['context'] or b''))
+    else:
+        e = ev('next', -1, o['kind'])
+    e['_observed'] = o
+    return e
